@@ -22,9 +22,9 @@ for pid in props:
         "evidence_file": "evidence/%s.json" % pid,
         "replay_cmd_template": "./check %s --replay {path}" % pid,
         "engine": c.get("engine", "lean"),
-        "level_claimed": {"category": "proof", "text": c["text"], "design_ref": c["design_ref"]},
-        "level_note": c["note"],
-        "technique": c["technique"],
+        "level_claimed": {"category": "proof", "text": c["text"], "design_ref": c.get("design_ref", "DESIGN.md §4 %s; notes/%s.md" % (pid, pid))},
+        "level_note": c.get("note", md.LEVEL_NOTE_COMMON),
+        "technique": c.get("technique", "Lean 4 theorem + correspondence"),
     })
 claimed = {c["property_id"] for c in checks}
 na = [{"property_id": p, "reason": md.PENDING.get(p, "check not built yet in this round (design in DESIGN.md §4); not claimed until its check exists")}
